@@ -175,7 +175,23 @@ fn strip_ids(v: &Value, ids: &BTreeSet<String>) -> Value {
     }
 }
 
-pub fn canon(rec: &RunRecord) -> Canon {
+pub fn canon(rec: &RunRecord, models: &[MWorkflow]) -> Canon {
+    // the node ids the models declare: every other node id was generated at run time
+    let mut declared: BTreeSet<String> = BTreeSet::new();
+    for m in models {
+        declared.insert(m.id.clone());
+        m.visit_steps(&mut |s| {
+            declared.insert(s.id.clone());
+            for b in &s.branches {
+                declared.insert(b.id.clone());
+            }
+        });
+        m.visit_acts(&mut |a| {
+            if !a.id.is_empty() {
+                declared.insert(a.id.clone());
+            }
+        });
+    }
     // task ids and the generated pids of child processes differ from run to run
     let ids: BTreeSet<String> = rec.trans.iter().map(|t| t.tid.clone()).chain(rec.msgs.iter().map(|m| m.tid.clone())).filter(|t| t != "$").chain(rec.msgs.iter().map(|m| m.pid.clone()).filter(|p| p != "p1")).collect();
     let mut phases: Vec<Vec<String>> = vec![vec![]];
@@ -199,7 +215,7 @@ pub fn canon(rec: &RunRecord) -> Canon {
     let mut outcome: BTreeMap<String, Vec<String>> = BTreeMap::new();
     for (_, (nid, st)) in last {
         // run-time generated block acts have generated node ids
-        let nid = if nid.len() == 8 && nid.chars().all(|c| c.is_ascii_alphanumeric()) && !nid.starts_with(|c: char| c == 's' || c == 'a' || c == 'b' || c == 'w') { "<gen>".to_string() } else { nid };
+        let nid = if declared.contains(&nid) { nid } else { "<gen>".to_string() };
         outcome.entry(nid).or_default().push(st);
     }
     for v in outcome.values_mut() {
@@ -225,7 +241,7 @@ pub fn case(ctx: &mut CaseCtx) -> CaseOut {
         out.discarded.get_or_insert("run A hit the step cap".into());
         return out;
     }
-    let ca = canon(&rec_a);
+    let ca = canon(&rec_a, &base.models);
     let q = rec_a.qpoints.len();
     let mut fr = vsim::rng::Rng::new(vsim::rng::mix(&[ctx.case_seed, 0xc12]));
     // fault points: quiescent point indexes 1..q (the point after the i-th settle)
@@ -300,7 +316,7 @@ pub fn case(ctx: &mut CaseCtx) -> CaseOut {
                 }
             }
         }
-        let cb = canon(&rec_b);
+        let cb = canon(&rec_b, &base.models);
         let what = plan.iter().map(|(_, k)| k.clone()).collect::<Vec<_>>().join("+");
         let store = base.engine.store.clone();
         // run-time generated acts are a recorded finding (their node links are not persisted): whether
